@@ -15,7 +15,7 @@ LEVEL = "exploration"
 KINDS = ["py_int", "py_float", "py_bool", "list_f", "list_i", "nested", "nd_f64", "nd_f32", "nd_f16", "nd_i64", "nd_bool", "nd_0d",
          "nd_readonly", "nd_noncontig", "t_plain", "t_graph", "t_const", "t_view", "t_int",
          # inputs that are not ndarrays but hand NumPy their memory without a copy (buffer protocol, __array__), and layouts asarray must keep
-         "buf_array", "buf_memview", "obj_array", "obj_array_iface", "nd_subclass", "nd_F", "nd_T", "nd_rev", "t_T", "t_F"]
+         "buf_array", "buf_memview", "obj_array", "obj_array_iface", "nd_subclass", "nd_F", "nd_T", "nd_rev", "t_T", "t_F", "t_complex"]  # t_complex: a complex tensor made while tracking was off
 DTYPES = [None, "float16", "float32", "float64", "int32", "bool", "complex128", ">f8", ">i4"]  # incl. byte-swapped (non-native) dtypes
 ENTRIES = ["tensor", "Tensor", "astensor", "asarray"]
 
@@ -69,6 +69,9 @@ def make_input(kind):
         return v
     if kind == "t_int":
         return mg.tensor([1, 2, 3])
+    if kind == "t_complex":
+        with mg.no_autodiff:
+            return mg.tensor(np.array([1.0 + 2.0j, -0.5j]))
     if kind == "buf_array":
         import array
 
@@ -250,7 +253,7 @@ def check_A(cell):
             return ("layout", "asarray returns strides %r, numpy.asarray %r" % (r.strides, ref.strides))
         return None
     # ---- must it be rejected?
-    passthrough = is_t and entry in ("astensor", "tensor") and copy is False and (const is None or x.constant is const) and (dt is None or x.dtype == np.dtype(dt))
+    passthrough = is_t and entry in ("astensor", "tensor") and copy is False and (const is None or x.constant is const) and (dt is None or x.dtype == np.dtype(dt)) and ndmin <= x.ndim
     must_raise = (not is_real(rd)) or (not np.issubdtype(rd, np.floating) and const is False)
     if must_raise and not passthrough:
         if raised is None:
@@ -289,7 +292,7 @@ def check_A(cell):
             if got != expect:
                 return ("aliasing", "copy=False/astensor shares memory=%r, numpy.asarray(x, dtype) would %r" % (got, expect))
     if is_t and entry in ("astensor", "tensor") and copy is False:
-        if passthrough and ndmin <= x.ndim:
+        if passthrough:
             if r is not x:
                 return ("identity", "astensor/tensor(copy=False) did not return the tensor itself although dtype and constant match")
         if not passthrough and r is x:
@@ -338,6 +341,8 @@ def check_B(cell):
         return ("grad_on_constant", "%s(constant=%r) of a tensor holding a gradient returned a constant tensor that exposes a gradient" % (meth, const))
     if np.shares_memory(r.data, t.data) and not (meth == "astype" and cell[6] is False and rd == t.dtype):
         return ("aliasing", "result shares memory with the source")
+    if r.grad is not None and t.grad is not None and r.grad.size and np.shares_memory(r.grad, t.grad):
+        return ("aliasing", "the result's gradient shares memory with the source's gradient")
     if r.dtype != rd or not np.array_equal(r.data, t.data.astype(rd)):
         return ("value", "values/dtype differ")
     exp_const = const if const is not None else (t.constant if np.issubdtype(rd, np.floating) or meth == "copy" else True)
